@@ -1370,14 +1370,6 @@ func drainRecover(p textparse.Parser, o drainOpts) (got []obs, err error, pan st
 	return got, err, ""
 }
 
-func firstPanicLines(s string) string {
-	l := strings.Split(s, "\n")
-	if len(l) > 14 {
-		l = l[:14]
-	}
-	return strings.Join(l, "\n")
-}
-
 func runC35Total(c c35TotalCase, r *ev.Rec) error {
 	if c.Format < 0 || c.Format > 2 || (c.Raw == "" && (len(c.Base.Fams) == 0 || validateFams(c.Base.Fams) != nil)) {
 		r.Discard()
@@ -1413,12 +1405,6 @@ func runC35Total(c c35TotalCase, r *ev.Rec) error {
 	// plain pass: Next + the accessors of the entry, no StartTimestamp
 	got, perr, pan := drainRecover(p, drainOpts{MaxNext: 8*len(payload) + 64})
 	if pan != "" {
-		// listed finding nhcb-empty-label-name-panic: the NHCB wrapper calls
-		// labels.DropReserved on a label set that holds a quoted empty label name (`""="v"`),
-		// which the text parsers accept; DropReserved indexes the first byte of the name.
-		if k != fProto && c.Opts[3] && strings.Contains(string(payload), `""=`) && strings.Contains(pan, "DropReserved") && strings.Contains(pan, "processNHCB") {
-			return ev.FailSig("nhcb-empty-label-name-panic", "%s with NHCB conversion: panic in NHCBParser.processNHCB -> labels.DropReserved for a series with a quoted empty label name; payload %.400q\n%s", k, payload, firstPanicLines(pan))
-		}
 		return ev.Failf("%s: panic while parsing %.400q\n%s", k, payload, pan)
 	}
 	if perr == errTooManyEntries {
